@@ -36,7 +36,7 @@ inductive Res (α : Type) where
   | ok (a : α)
   | err (e : Err)
   | panic (s : Site)
-  deriving Repr, Inhabited
+  deriving Repr, Inhabited, DecidableEq
 
 namespace Res
 
